@@ -133,21 +133,22 @@ type Universe struct {
 var U = Universe{
 	Depts:     []string{"d1", "d2", "d3"},
 	DeptNames: []string{"dn1", "dn2", "dn3"},
-	People:    []string{"p1", "p2", "p3", "p4", `a"b`, `a\b`, `x" or id != "`, `c\nd`, `e\\f`},
+	People:    []string{"p1", "p2", "p3", "p4", "p1a", `a"b`, `a\b`, `x" or id != "`, `c\nd`, `e\\f`},
 	Names:     []string{"n1", "n2", "n3", "n4", "n5"},
 	Nicks:     []string{"k1", "k2"},
 	Roles:     []string{"r1", "r2", "r3"},
 	Badges:    []string{"b1", "b2", "b3"},
 	Notes:     []string{"o1", "o2", "o3", "o4", "o5", "zn"},
 	Tickets:   []string{"t1", "t2", "zt"},
-	Groups:    []string{"g1", "g2", "g3", `g"4`},
+	Groups:    []string{"g1", "g2", "g3", "g1a", `g"4`},
 	BadgeNos:  []string{"bn1", "bn2", "bn3"},
 	Memos:     []string{"m1", "m2"},
 	TagKeys:   []string{"tk1", "tk2"},
 	MemoIds:   []string{"e1", "e2", "e3", "e4", "e5"},
 }
 
-const nHostilePeople = 5 // quote, backslash, filter syntax, backslash + escape letter, double backslash
+const nHostilePeople = 5 // (the id before them, p1a, has p1 as a strict prefix)
+// hostile: quote, backslash, filter syntax, backslash + escape letter, double backslash
 
 func (u Universe) ByStore() map[string][]string {
 	return map[string][]string{StDepts: u.Depts, StPeople: u.People, StStaff: u.People, StPX: u.People, StBadges: u.Badges,
@@ -747,10 +748,102 @@ func keysOfAny(m *Model, store string) []string {
 	return nil
 }
 
+// churn: the same id is deleted, created again and deleted again (or created, deleted, created) inside one transaction.
+func (g *gen) churn() (TxPlan, bool) {
+	ps := keysOf(g.shadow.People)
+	ds := keysOf(g.shadow.Depts)
+	if len(ps) == 0 || len(ds) == 0 {
+		return TxPlan{}, false
+	}
+	id := pick(g.r, ps)
+	for tries := 0; tries < 6; tries++ {
+		if o := g.shadow.Clone().Apply(Op{K: "delete", S: StPeople, Id: id, Sys: true}, 0); o.OK {
+			break
+		}
+		id = pick(g.r, ps)
+	}
+	sys := g.shadow.People[id].Sys
+	mk := func() Op {
+		op := Op{K: "create", S: pick(g.r, []string{StPeople, StPeople, StStaff, StPX}), Id: id}
+		g.personFields(&op, id)
+		op.Mentor = nil
+		op.IsSys, op.Sys = false, g.r.IntN(6) == 0
+		if op.S == StStaff {
+			op.BadgeNo = pick(g.r, U.BadgeNos)
+		}
+		return op
+	}
+	del := Op{K: "delete", S: StPeople, Id: id, Sys: sys || g.r.IntN(5) == 0}
+	tx := TxPlan{Mode: "update", Ops: []Op{del, mk(), {K: "delete", S: StPeople, Id: id, Sys: g.r.IntN(5) == 0}}}
+	if g.r.IntN(2) == 0 {
+		tx.Ops = append(tx.Ops, mk())
+	}
+	return tx, true
+}
+
 func (g *gen) genTx() TxPlan {
 	tx := TxPlan{Mode: "update"}
 	if g.r.Float64() < g.cfg.BatchRate {
 		tx.Mode = "batch"
+	}
+	if (g.cfg.Prop == "C05" || g.cfg.Prop == "C06") && g.r.IntN(12) == 0 {
+		// link churn: the same pair is linked and unlinked (or the reverse) inside one transaction through the
+		// single-link calls, from either side; often followed by the delete of one end
+		ps, gs := keysOf(g.shadow.People), keysOf(g.shadow.Groups)
+		if len(ps) > 0 && len(gs) > 0 {
+			pid, gid := pick(g.r, ps), pick(g.r, gs)
+			side, id, key := StPeople, pid, gid
+			if g.r.IntN(2) == 0 {
+				side, id, key = StGroups, gid, pid
+			}
+			ctx := TxPlan{Mode: tx.Mode}
+			first, second := "addLink", "removeLink"
+			if g.shadow.Links[pair{pid, gid}] && g.r.IntN(2) == 0 {
+				first, second = "removeLink", "addLink"
+			}
+			ctx.Ops = append(ctx.Ops, Op{K: first, S: side, Id: id, Keys: []string{key}}, Op{K: second, S: side, Id: id, Keys: []string{key}})
+			if g.r.IntN(3) == 0 {
+				ctx.Ops = append(ctx.Ops, Op{K: first, S: side, Id: id, Keys: []string{key}})
+			}
+			if g.r.IntN(2) == 0 {
+				if g.r.IntN(2) == 0 {
+					ctx.Ops = append(ctx.Ops, Op{K: "delete", S: StGroups, Id: gid})
+				} else {
+					ctx.Ops = append(ctx.Ops, Op{K: "delete", S: StPeople, Id: pid, Sys: g.shadow.People[pid].Sys})
+				}
+			}
+			saved := g.shadow
+			g.shadow = saved.Clone()
+			good := true
+			for _, op := range ctx.Ops {
+				if o := g.shadow.Apply(op, 0); !o.OK && !o.Skipped {
+					good = false
+					break
+				}
+			}
+			if !good {
+				g.shadow = saved
+			}
+			return ctx
+		}
+	}
+	if (g.cfg.Prop == "C03" || g.cfg.Prop == "C06") && g.r.IntN(14) == 0 {
+		if ctx, ok := g.churn(); ok {
+			ctx.Mode = tx.Mode
+			saved := g.shadow
+			g.shadow = saved.Clone()
+			good := true
+			for _, op := range ctx.Ops {
+				if o := g.shadow.Apply(op, 0); !o.OK && !o.Skipped {
+					good = false
+					break
+				}
+			}
+			if !good {
+				g.shadow = saved
+			}
+			return ctx
+		}
 	}
 	if (g.cfg.Prop == "C04" || g.cfg.Prop == "C06") && g.r.IntN(6) == 0 {
 		if btx, ok := g.cascadeBurst(); ok {
@@ -785,6 +878,9 @@ func (g *gen) genTx() TxPlan {
 				}
 				op = g.genOp()
 			}
+		}
+		if (g.cfg.Profile == "tx" || g.cfg.Profile == "txenum") && g.r.IntN(8) == 0 {
+			op.Nested = true // issued inside a nested Db.Update on the already bound context
 		}
 		tx.Ops = append(tx.Ops, op)
 		if o := g.shadow.Apply(op, 0); !o.OK && !o.Skipped {
@@ -998,7 +1094,7 @@ func genConcurrent(profile, prop string, seed uint64, r *rand.Rand) *Plan {
 				}
 				tp.Txs = append(tp.Txs, rs)
 			case 4, 5:
-				tp.Txs = append(tp.Txs, TxPlan{Mode: "timeline"})
+				tp.Txs = append(tp.Txs, TxPlan{Mode: "timeline", Arg: pick(r, []string{"default", "default", "initIfEmpty", "forceReset"})})
 			default:
 				tp.Txs = append(tp.Txs, TxPlan{Mode: "idle", N: 1 + r.IntN(6)})
 			}
@@ -1010,7 +1106,7 @@ func genConcurrent(profile, prop string, seed uint64, r *rand.Rand) *Plan {
 			n := 1 + r.IntN(4)
 			for i := 0; i < n; i++ {
 				tt.Txs = append(tt.Txs, TxPlan{Mode: "idle", N: r.IntN(8)})
-				tt.Txs = append(tt.Txs, TxPlan{Mode: "timeline"})
+				tt.Txs = append(tt.Txs, TxPlan{Mode: "timeline", Arg: pick(r, []string{"default", "default", "initIfEmpty", "forceReset"})})
 			}
 			p.Tasks = append(p.Tasks, tt)
 		}
